@@ -34,8 +34,11 @@ def _compile_job(job):
     """job = (seed, index, label, tflite bytes, opts).  Runs in a forked worker."""
     import traceback
 
+    import time
+
     seed, idx, label, data, opts, tgt = job
     out = {"idx": idx, "label": label, "opts": opts, "tgt": tgt}
+    t_start, w_start = time.process_time(), time.time()
     try:
         import c16_lib
         import pipeline
@@ -114,6 +117,7 @@ def _compile_job(job):
         pipeline.reset_process_state()
     except BaseException:  # noqa: B902
         out["harness_exception"] = traceback.format_exc()[-1500:]
+    out["cpu_s"], out["wall_s"] = time.process_time() - t_start, time.time() - w_start
     return out
 
 
@@ -145,6 +149,14 @@ def main():
 
     rng = ck.rng
     explore = "--explore" in os.sys.argv
+    import time as _time
+    _t0 = [_time.time()]
+
+    def mark(what):
+        if explore or os.environ.get("VERIF_TIMING"):
+            print(f"TIMING {what}: {_time.time() - _t0[0]:.1f}s", flush=True)
+        _t0[0] = _time.time()
+    mark("lean stage")
     if ck.replay_arg:
         replay(ck, ck.replay_arg)
         return
@@ -230,6 +242,7 @@ def main():
         for i, doc, obs in spec_rej[:20]:
             print("SPEC-REJ", meta[i][0], meta[i][1], doc, obs, meta[i][3], meta[i][4])
 
+    mark("function level")
     # ---- (b) pipeline level -----------------------------------------------------------------------------------------
     nets = c16_nets.cases(random.Random(ck.seed * 7919 + 16), ck.thorough)
     jobs = []
@@ -252,9 +265,22 @@ def main():
                 opts.append("--show-cpu-operations")
             jobs.append((ck.seed, idx, label, data, opts, getattr(net, "tgt", None)))
     pipeline.load_vela()
+    # scratch directories of the ~4000 compilations on a memory file system: creating and removing a directory on the disk-backed /tmp
+    # costs more than the compilation itself when the machine is busy (measured: 40 ms vs 0.06 ms per mkdtemp + rmtree)
+    if os.path.isdir("/dev/shm") and os.access("/dev/shm", os.W_OK) and not os.environ.get("TMPDIR"):
+        tempfile.tempdir = "/dev/shm"
     ctx = multiprocessing.get_context("fork")
     with ProcessPoolExecutor(min(16, os.cpu_count() or 4), mp_context=ctx) as ex:
         results = list(ex.map(_compile_job, jobs, chunksize=2))
+    mark(f"{len(jobs)} compilations")
+    if explore or os.environ.get("VERIF_TIMING"):
+        tot = sum(r.get("cpu_s", 0) for r in results)
+        print(f"TIMING compile wall total {sum(r.get('wall_s', 0) for r in results):.1f}s over {min(16, os.cpu_count() or 4)} workers")
+        print(f"TIMING compile cpu total {tot:.1f}s; slowest:", [(round(r.get("cpu_s", 0), 2), r["label"]) for r in sorted(results, key=lambda r: -r.get("cpu_s", 0))[:25]])
+        fam = collections.Counter()
+        for r in results:
+            fam[r["label"].split(" ")[0]] += r.get("cpu_s", 0)
+        print("TIMING per family:", [(k, round(v, 1)) for k, v in fam.most_common(25)])
     preqs, pmeta = [], []
     c13_skipped, crashes = 0, []
     c13_sites = [k["key"] for k in common.load_known_findings() if k["property"] == "C13"]
@@ -286,7 +312,12 @@ def main():
             if dsc is not None:
                 preqs.append(f"c16 {which} {dsc}")
                 pmeta.append((r, (which, verdict, name, dsc)))
-    pouts = ck.model(preqs)
+    mark("parse outputs")
+    # the same descriptor is asked many times (the 1x1 CONV_2D / RELU neighbours, the operators the checkers see again): ask once
+    uniq = list(dict.fromkeys(preqs))
+    ans = dict(zip(uniq, ck.model(uniq)))
+    pouts = [ans[q] for q in preqs]
+    mark(f"{len(preqs)} doc/place/in-situ requests ({len(uniq)} distinct)")
     pos = 0
     BO = {}
     from ethosu.vela.tflite.BuiltinOperator import BuiltinOperator
@@ -359,6 +390,7 @@ def main():
         for j, ok in enumerate(judged):
             if ok != "1" and not any(s["op_index"] == j for s in r.get("src", [])):
                 structure.append((r, f"unaccounted|source operator {j} (not presented by the reader): {fates[j]}"))
+    mark(f"{len(creqs)} cover requests")
     nets_ok = set()
     rep_struct = collections.Counter()
     for r, probs in structure:
@@ -411,6 +443,7 @@ def main():
                 same_reqs.append(" ".join([f"c16same {srcs[0]['canon']} {o['canon']}"] + al))
                 same_meta.append((r, srcs[0], o))
     changed = [(m, a) for m, a in zip(same_meta, ck.model(same_reqs)) if a != "1"]
+    mark(f"{len(same_reqs)} c16same requests")
     ck.count("cpu_ops_compared_with_source", len(same_reqs))
     rep_changed = 0
     for (r, so, oo), _a in changed:
